@@ -43,6 +43,9 @@ pub struct Directive {
     pub notice_len: usize,
     /// write this many reply bytes, then stop answering for ever
     pub hang_after: Option<usize>,
+    /// raw bytes (given in hex) quoted inside the message of the directed ErrorResponse, the way PostgreSQL quotes an offending
+    /// identifier in the client's encoding (LATIN1, SQL_ASCII): not necessarily UTF-8
+    pub err_raw: Vec<u8>,
 }
 
 impl Directive {
@@ -86,6 +89,7 @@ impl Directive {
                 "suspend" => d.suspend = true,
                 "noticelen" => d.notice_len = v.parse().unwrap_or(0),
                 "hangafter" => d.hang_after = v.parse().ok(),
+                "errraw" => d.err_raw = (0..v.len() / 2).filter_map(|i| u8::from_str_radix(&v[2 * i..2 * i + 2], 16).ok()).collect(),
                 _ => {}
             }
         }
